@@ -1,5 +1,5 @@
 HOOK_COMMITS = ["33a37d7"]
-FIX_COMMITS = ["22a3b9d", "0101a6c"]
+FIX_COMMITS = ["22a3b9d", "0101a6c", "dbbe9b2"]
 NOTES = ("All checks are property-based tests / fuzz targets over the real go-dcp code built from /repo's working tree "
          "(build tag verif). Exit 2 = inconclusive (build/infrastructure/budget), never a pass. See DESIGN.md.")
 NOT_APPLICABLE = {}
@@ -58,5 +58,31 @@ META = {
              "by the harness's server model (excludes mixtures of two events/snapshots) and satisfy start<=seq<=end; an event outside its snapshot "
              "must stop the client and never be delivered.",
         note="vbUUID is the first failover entry handed to SetVbUUID by the fake client exactly as client.go does; wire-level check of that hand-over is in C08.",
+    ),
+    "C02": dict(
+        technique="rapid property-based testing: field-by-field comparison of OpenStream arguments / DCP_STREAM_REQ extras with the persisted tuple; Save->Load round trips; native fuzz of the JSON document",
+        text="The real checkpoint.Load + openAllStreams run on interface-level fakes for every combination of auto-reset, mode, backend and stored "
+             "subset with full-range uint64 fields; the real client.OpenStream and the real Couchbase xattr metadata run over real gocbcore "
+             "agents against the simulated node, where the wire extras and the KV write set are observed. Sampling over a very large input "
+             "space with boundary classes; not exhaustive.",
+        note="simnode is my model of the memcached/DCP/sub-document protocol as gocbcore v10.5.2 speaks it (trusted). 'custom' backend = the in-memory fake.",
+    ),
+    "C03": dict(
+        technique="rapid generation of concurrent per-vBucket event sequences against an independent delivery-filter model (sequence equality + field fidelity)",
+        text="Up to 8 vBuckets are fed concurrently through the real observers/stream; the delivered list per vBucket must equal the filter model "
+             "as a sequence and every field must be the server's. Reserved-prefix and skipUntil boundaries are generated densely.",
+        note="Layer A emulates gocbcore's decode-and-dispatch; catch-up filtering after a rollback is C08's. Concurrency across vBuckets is sampled by the Go scheduler.",
+    ),
+    "C12": dict(
+        technique="rapid stateful op-lists with stream-end fault injection over the full cause alphabet + finite-mode scenarios against an active-stream / reopen model",
+        text="Every end cause at every position of generated histories; transient => exactly one reopen from the settled position, others final; "
+             "active count and stop channel checked in both directions after every end; finite mode stops exactly after each vBucket's sampled end.",
+        note="The stream-level stop channel is observed (Dcp.Start's return is exercised in C13). Reopen retries use the library's hard-coded 1 s sleep: only a small share of cases inject a refused reopen.",
+    ),
+    "C16": dict(
+        technique="rapid stateful histories with scrape operations; decoded Collect() output compared with the settled-position / membership model",
+        text="The real metric collector over the real stream and the real VBucketDiscovery (dynamic membership via the event bus) is scraped at "
+             "generated points incl. before open and inside a rebalance, with server high seqnos placed below/at/above the tracked positions.",
+        note="HTTP layer (fiber/prometheus registry) not exercised; /states/offset serves the same GetOffsets() map C04 checks. persist_seq_no, latency and agent-queue gauges are not asserted.",
     ),
 }
